@@ -16,6 +16,7 @@ func init() {
 	vrt.Register("C17_content_for_of", ContentForOf)
 	vrt.Register("C17_block_helper", BlockHelper)
 	vrt.Register("C17_nested_partials", NestedPartials)
+	vrt.Register("C17_shared_data_map", SharedDataMap)
 }
 
 // bodies of partials / blocks; they read v (data), c (caller's variable) and xs
@@ -251,5 +252,44 @@ func NestedPartials() {
 	want, _ := plush.Render("1(<%= v %>2(<%= v %><%= u %>3(<%= v %><%= u %><%= t %>)))", ctx)
 	vrt.Assert(err == nil, "nested partials render")
 	vrt.Assert(got == want, "nested partials equal the inlined source; inner partials see the outer partials' data")
+	vrt.Cover("done")
+}
+
+// one data map (bound with let, or supplied from Go) handed to several partial calls
+func SharedDataMap() {
+	e := mkEnv()
+	feeder := func(name string) (string, error) {
+		switch name {
+		case "lay":
+			return "L[<%= yield %>]L", nil
+		case "a":
+			return "A:<%= v %>", nil
+		}
+		return "B:<%= v %>", nil
+	}
+	ctx := e.ctx(false, feeder)
+	ctx.Set("gomap", map[string]interface{}{"layout": "lay", "v": e.v})
+	av, _ := plush.Render("A:<%= v %>", e.ctx(true, nil))
+	bv, _ := plush.Render("B:<%= v %>", e.ctx(true, nil))
+	var in, want string
+	switch vrt.Choice(4) {
+	case 0:
+		in = "<% let opts = {layout: \"lay\", v: V} %><%= partial(\"a\", opts) %>|<%= partial(\"b\", opts) %>"
+		want = "L[" + av + "]L|L[" + bv + "]L"
+	case 1:
+		in = "<%= partial(\"a\", gomap) %>|<%= partial(\"b\", gomap) %>|<%= partial(\"a\", gomap) %>"
+		want = "L[" + av + "]L|L[" + bv + "]L|L[" + av + "]L"
+	case 2:
+		in = "<% let opts = {layout: \"lay\", v: V} %><%= for (i) in [1, 2] { %><%= partial(\"a\", opts) %>;<% } %>"
+		want = "L[" + av + "]L;L[" + av + "]L;"
+	default:
+		in = "<% let opts = {v: V} %><%= partial(\"a\", opts) %>|<%= partial(\"b\", opts) %>"
+		want = av + "|" + bv
+	}
+	vrt.Note("input", in)
+	got, err := plush.Render(in, ctx)
+	vrt.Note("got", got)
+	vrt.Assert(err == nil, "partials sharing a data map render")
+	vrt.Assert(got == want, "every partial call with the same data renders the same way: the data map is not consumed")
 	vrt.Cover("done")
 }
